@@ -3,11 +3,12 @@
    model of asm.read_lines over an abstract file system (Model/Reader.v, tied to the real reader by differential
    runs on generated trees); the search path of a file is  incs ++ [its own directory]  (-i directories in
    order, then the directory of the including file).  That the PASSES look at the Lines only through their
-   contents is C14_lines_only below (the parser's part is NOT proved here (the assembler is outside this model); it is evaluated
-   on the real code by the falsifier (assemble(tree) = assemble(flattened text), from several directories). *)
+   contents is C14_lines_only below; that the PARSER does too, and hence the whole model of asm.assemble (reader + lexer +
+   parser + passes, Proofs/Whole.v), is C14_whole_same_contents / C14_whole_include_is_paste at the end.  The real code is
+   evaluated by the falsifier (assemble(tree) = assemble(flattened text), from several directories). *)
 From Coq Require Import ZArith List String.
 From BB Require Import Base.PyBase Gen.Cli Model.Reader Model.Cli Proofs.ReaderSplice Proofs.ReaderCwd.
-From BB Require Model.Items Model.Passes Proofs.Relabel.
+From BB Require Model.Items Model.Passes Proofs.Relabel Proofs.Whole Proofs.ParseRelabel Proofs.WholeSplice.
 Import ListNotations.
 Open Scope string_scope.
 Open Scope Z_scope.
@@ -131,3 +132,52 @@ Theorem C14_lines_only : forall f its consts labels compress r,
              Passes.r_labels r' = Passes.r_labels r /\ Passes.r_consts r' = Passes.r_consts r.
 Proof. exact Relabel.relabel_success. Qed.
 Print Assumptions C14_lines_only.
+
+(* ---- the whole model of asm.assemble (Proofs/Whole.v: reader + lexer + parser + the 16 passes) ------------------------------ *)
+(* [wshape]: what a run yields apart from the names of lines -- the bytes of every chunk, the constants and the labels; or the kind of failure *)
+(* two readings (other file system, other include path, other top file, other nesting) that yield the same line CONTENTS give the same result *)
+Theorem C14_whole_same_contents :
+  forall fuel1 fs1 cwd1 incs1 top1 fuel2 fs2 cwd2 incs2 top2 consts labels compress la lb,
+    read_lines fuel1 fs1 cwd1 incs1 top1 = ROk la -> read_lines fuel2 fs2 cwd2 incs2 top2 = ROk lb ->
+    map l_contents la = map l_contents lb ->
+    ParseRelabel.wshape (Whole.assemble_model fuel1 fs1 cwd1 incs1 top1 consts labels compress) =
+    ParseRelabel.wshape (Whole.assemble_model fuel2 fs2 cwd2 incs2 top2 consts labels compress).
+Proof. exact ParseRelabel.whole_same_contents. Qed.
+Print Assumptions C14_whole_same_contents.
+
+(* a source (given as a string) with an include line anywhere in it, and the same source with the plain lines of the found
+   file -- read completely, to any depth -- pasted in place of that line: same bytes, labels, constants; or the same kind of failure *)
+Theorem C14_whole_include_is_paste :
+  forall fuel fs cwd incs top1 top2 A raw B rel p inc consts labels compress,
+    fs_exists fs cwd top1 = false -> fs_exists fs cwd top2 = false ->
+    splitlines top1 = (A ++ raw :: B)%list ->
+    is_blank raw = false -> is_include raw = true -> include_target raw = Some rel ->
+    lookup fs cwd rel (incs ++ [cwd]) = Some p ->
+    read_file fuel fs cwd incs p = ROk inc ->
+    Forall (fun l => is_plain (l_contents l) = true) inc ->
+    splitlines top2 = (A ++ map l_contents inc ++ B)%list ->
+    ParseRelabel.wshape (Whole.assemble_model fuel fs cwd incs top1 consts labels compress) =
+    ParseRelabel.wshape (Whole.assemble_model fuel fs cwd incs top2 consts labels compress).
+Proof. exact WholeSplice.whole_include_is_paste. Qed.
+Print Assumptions C14_whole_include_is_paste.
+
+(* the parser model commutes with any renaming of lines (the line is used for error reports only) *)
+Theorem C14_parser_lines_only : forall f l tokens,
+  Parser.parse_item (f l) tokens = ParseRelabel.ffres f (Relabel.fitem f) (Parser.parse_item l tokens).
+Proof. exact ParseRelabel.parse_item_relabel. Qed.
+Print Assumptions C14_parser_lines_only.
+
+(* non-vacuity: the nested tree above, included from a source string, against the pasted text; both yield five instructions *)
+Definition ex_top1 : string := "addi x6, x0, 6" ++ nl ++ "include ""/p/src/sub/a.asm""" ++ nl ++ "beq x0, x0, 0" ++ nl.
+Definition ex_top2 : string := "addi x6, x0, 6" ++ nl ++ "addi x2, x0, 2" ++ nl ++ "addi x4, x0, 4" ++ nl ++ "addi x3, x0, 3" ++ nl ++ "beq x0, x0, 0" ++ nl.
+Example C14_whole_hypotheses_met :
+  fs_exists ex_tree "/q" ex_top1 = false /\ fs_exists ex_tree "/q" ex_top2 = false /\
+  (exists inc, splitlines ex_top1 = (["addi x6, x0, 6"] ++ "include ""/p/src/sub/a.asm""" :: ["beq x0, x0, 0"])%list /\
+     lookup ex_tree "/q" "/p/src/sub/a.asm" (["/p/inc"] ++ ["/q"]) = Some "/p/src/sub/a.asm" /\
+     read_file 4 ex_tree "/q" ["/p/inc"] "/p/src/sub/a.asm" = ROk inc /\
+     forallb (fun l => is_plain (l_contents l)) inc = true /\
+     splitlines ex_top2 = (["addi x6, x0, 6"] ++ map l_contents inc ++ ["beq x0, x0, 0"])%list) /\
+  ParseRelabel.wshape (Whole.assemble_model 4 ex_tree "/q" ["/p/inc"] ex_top1 [] [] false) =
+    ParseRelabel.SDone [Passes.CBytes [19; 3; 96; 0]; Passes.CBytes [19; 1; 32; 0]; Passes.CBytes [19; 2; 64; 0];
+                        Passes.CBytes [147; 1; 48; 0]; Passes.CBytes [99; 0; 0; 0]] [] [].
+Proof. vm_compute. repeat split; try reflexivity. eexists. repeat split; reflexivity. Qed.
